@@ -1,8 +1,10 @@
 package checks
 
 import (
+	"bytes"
 	stdjson "encoding/json"
 	"fmt"
+	"strings"
 
 	"github.com/gabriel-vasile/mimetype/internal/verifx/core"
 	"github.com/gabriel-vasile/mimetype/internal/verifx/ref"
@@ -218,6 +220,34 @@ func c09Run(c *core.Ctx) {
 								c.Check(cs)
 							}
 						}
+					}
+				}
+			}
+		}
+	}
+
+	// E: \u escapes with every byte value in each of the four digit positions
+	// (ASCII alphabets cannot tell a classifier that folds non-ASCII bytes onto
+	// hex digits), in an array and as a key, whole and cut after the escape
+	{
+		for posn := 0; posn < 4; posn++ {
+			if !c.Mine(uint64(posn)) || c.Expired() {
+				continue
+			}
+			for b := 0; b < 256; b++ {
+				esc := []byte("00e9")
+				esc[posn] = byte(b)
+				for _, tmpl := range []string{"[\"\\u%s\"]", "{\"\\u%s\":1}", "[1,{\"k\":\"a\\u%sz\"}]", "[\"\\u%s\xc3\xa9\"]"} {
+					doc := []byte(strings.Replace(tmpl, "%s", string(esc), 1))
+					try(doc, 0, "E:escape-digit-bytes", false)
+					// the same document behind a tail, cut right after the escape
+					i := bytes.Index(doc, esc) + 4
+					cs.In, cs.Ints[0] = append(append([]byte{}, doc...), " , 1]"...), 0
+					for _, cut := range []int{i - 1, i, i + 1} {
+						cs.Limit = uint32(cut)
+						c.R.Transitions++
+						c.R.Evals++
+						c.Check(cs)
 					}
 				}
 			}
